@@ -65,6 +65,43 @@ FineRec(ops, t, den, loops, cur, cs, eps) ==
                          Max(eps, CubicEps(p0, p1, p2, p3)))
 FineLoops(ops, t, den) == FineRec(Expand(ops), t, den, <<>>, <<>>, NoCursor, 1)
 
+(* Fine stroke subpaths: like FineLoops, but every subpath keeps its closed flag  *)
+(* (a closed subpath gets its start point appended so that its outline is one    *)
+(* open point list) and a drawing op after Close starts a new subpath.           *)
+RECURSIVE FineSubRec(_, _, _, _, _, _, _)
+FineSubRec(ops, t, den, acc, cur, cs, eps) ==
+  LET flush(cl) == IF Len(cur) >= 2 THEN Append(acc, [pts |-> IF cl THEN Append(cur, cur[1]) ELSE cur, closed |-> cl]) ELSE acc
+      D(p) == DevFU(t, den, p) IN
+  IF ops = <<>> THEN [subs |-> flush(FALSE), eps |-> eps]
+  ELSE LET op == Head(ops) IN
+       CASE Kind(op) = "M" -> FineSubRec(Tail(ops), t, den, flush(FALSE), <<D(EndPoint(op))>>, CursorAfter(cs, op), eps)
+         [] Kind(op) = "Z" -> FineSubRec(Tail(ops), t, den, flush(TRUE),
+                                         IF cs.start = <<>> THEN <<>> ELSE <<D(cs.start)>>, CursorAfter(cs, op), eps)
+         [] Kind(op) = "L" -> FineSubRec(Tail(ops), t, den, acc,
+                                         IF cur = <<>> THEN <<D(EndPoint(op))>> ELSE Append(cur, D(EndPoint(op))),
+                                         CursorAfter(cs, op), eps)
+         [] Kind(op) = "Q" ->
+              LET p0 == D(StartOf(cs, op))  p1 == D(<<op[2], op[3]>>)  p2 == D(<<op[4], op[5]>>)
+                  base == IF cur = <<>> THEN <<p0>> ELSE cur
+              IN FineSubRec(Tail(ops), t, den, acc, base \o QuadPts(p0, p1, p2), CursorAfter(cs, op),
+                            Max(eps, QuadEps(p0, p1, p2)))
+         [] Kind(op) = "C" ->
+              LET p0 == D(StartOf(cs, op))  p1 == D(<<op[2], op[3]>>)  p2 == D(<<op[4], op[5]>>)  p3 == D(<<op[6], op[7]>>)
+                  base == IF cur = <<>> THEN <<p0>> ELSE cur
+              IN FineSubRec(Tail(ops), t, den, acc, base \o CubicPts(p0, p1, p2, p3), CursorAfter(cs, op),
+                            Max(eps, CubicEps(p0, p1, p2, p3)))
+\* repeated points are dropped (zero-length segments are ignored by the stroker) and a subpath
+\* that is a single point strokes nothing
+RECURSIVE DedupPts(_)
+DedupPts(s) == IF Len(s) <= 1 THEN s ELSE IF s[1] = s[2] THEN DedupPts(Tail(s)) ELSE <<s[1]>> \o DedupPts(Tail(s))
+FineSubpaths(ops, t, den) ==
+  LET r == FineSubRec(Expand(ops), t, den, <<>>, <<>>, NoCursor, 1)
+      d == [k \in 1..Len(r.subs) |-> [pts |-> DedupPts(r.subs[k].pts), closed |-> r.subs[k].closed]]
+      keep == {k \in 1..Len(d) : Len(d[k].pts) >= 2}
+      RECURSIVE Pick(_)
+      Pick(S) == IF S = {} THEN <<>> ELSE LET m == SetMin(S) IN <<d[m]>> \o Pick(S \ {m})
+  IN [subs |-> Pick(keep), eps |-> r.eps]
+
 (*------------------------------ distances --------------------------------*)
 (* squared distance from c to segment a-b (all differences < 46340)         *)
 DistSq(c, a, b) ==
@@ -90,6 +127,27 @@ FarFromLoops(c, ls, r) == \A k \in 1..Len(ls) : FarFromLoop(c, ls[k], r)
 \* open polyline variants
 FarFromPolyline(c, l, r) == \A i \in 1..(Len(l) - 1) : FarFromSeg(c, l[i], l[i + 1], r)
 NearPolyline(c, l, r) == \E i \in 1..(Len(l) - 1) : ~FarFromSeg(c, l[i], l[i + 1], r)
+
+(* C04 for curved paths stroked with round joins: the stroke is the set of points  *)
+(* within half the width of the outline (round caps) or of its interior (butt   *)
+(* caps: the zones around open ends are left open).  hw = half width in FU,     *)
+(* margin in FU (the property's 1 px for curved paths).  The pixel square lies   *)
+(* within sqrt(1/2) px of its centre.                                            *)
+HalfDiag == 725          \* ceil(sqrt(1/2) * 1024)
+NearSubs(c, subs, r) == \E k \in 1..Len(subs) : NearPolyline(c, subs[k].pts, r)
+FarSubs(c, subs, r) == \A k \in 1..Len(subs) : FarFromPolyline(c, subs[k].pts, r)
+OpenEnds(subs) == UNION {IF subs[k].closed THEN {} ELSE {subs[k].pts[1], subs[k].pts[Len(subs[k].pts)]} : k \in 1..Len(subs)}
+ClassifyTube(fs, hw, cap, margin, px, py) ==
+  LET c == <<px * FU + 512, py * FU + 512>>
+      rin == hw - margin - fs.eps - HalfDiag
+      rout == hw + margin + fs.eps + HalfDiag
+      \* square caps reach sqrt(2) * hw from the end point
+      nearEnd == \E e \in OpenEnds(fs.subs) :
+                   (c[1] - e[1]) * (c[1] - e[1]) + (c[2] - e[2]) * (c[2] - e[2]) <= (2 * hw + margin + HalfDiag) * (2 * hw + margin + HalfDiag)
+  IN IF cap # "Round" /\ nearEnd THEN "free"
+     ELSE IF rin > 0 /\ NearSubs(c, fs.subs, rin) THEN "in"
+     ELSE IF FarSubs(c, fs.subs, rout) THEN "out"
+     ELSE "free"
 
 (* C08: classification of pixel (px, py) against fine loops: "in" = inside   *)
 (* by the rule and farther than 1 + sqrt(1/2) px (+ eps) from the outline,   *)
